@@ -209,7 +209,16 @@ class Runner:
         cd = te.spec.classes[cls_name]
         # a case-data class declared inside <chunked> is only ever entered in chunked mode
         entry_mode = cd.kind == "case" and cd.static_chunked
-        reader = te.FaultyReader(data, cap=STEP_CAP)
+        # the same bytes as bytes / bytearray / a memoryview window into a larger buffer
+        self.n_deliveries = getattr(self, "n_deliveries", 0) + 1
+        kind_of_buffer = self.n_deliveries % 5
+        if kind_of_buffer == 3:
+            buf = bytearray(data)
+        elif kind_of_buffer == 4:
+            buf = memoryview(b"\x41\xff" + data + b"\x00\xff\x42")[2:2 + len(data)]
+        else:
+            buf = data
+        reader = te.FaultyReader(buf, cap=STEP_CAP)
         if entry_mode:
             reader.chunked_reading_mode = True
         exc = None
